@@ -55,8 +55,8 @@ Lemma wfb_dir es :
   wfb (Dir es) = nodupb (map fst es) && forallb plain_name (map fst es) && wfb_list es.
 Proof. reflexivity. Qed.
 
-Lemma walk_nonempty n : exists l, walk n = ([], n) :: l.
-Proof. destruct n; eexists; reflexivity. Qed.
+Lemma walk_nonempty n : exists e l, walk n = e :: l.
+Proof. destruct n; do 2 eexists; reflexivity. Qed.
 
 (* ---------------------------------------------------------------- association lists --------- *)
 Lemma assoc_set_same x v es : assoc x (set x v es) = Some v.
@@ -116,10 +116,10 @@ Lemma upd_cons mk x q f es :
 Proof. cbn [upd]. destruct (upd mk q f (assoc x es)); reflexivity. Qed.
 
 (* every step of the walk below the entry x of a directory is the same step, one level down *)
-Lemma visit_cons k x q n es :
-  visit k (x :: q, n) (Some (Dir es)) = lift x es (visit k (q, n) (assoc x es)).
+Lemma visit_cons k x (e : path * node) es :
+  visit k (pfx x e) (Some (Dir es)) = lift x es (visit k e (assoc x es)).
 Proof.
-  unfold visit. cbn [fst snd]. destruct n as [i pm c|es'|t].
+  destruct e as [q n]. unfold visit, pfx. cbn [fst snd]. destruct n as [i pm c|es'|t].
   - unfold copy_or_link, copy_file.
     destruct (link k).
     + destruct (link_ok k).
@@ -131,6 +131,15 @@ Proof.
   - apply upd_cons.
 Qed.
 
+Lemma run_walk_cons k e r d :
+  run_walk k (e :: r) d =
+  match visit k e d with
+  | ROk n => run_walk k r (Some n)
+  | RErr => WFailed
+  | RUnsup => WUnsup
+  end.
+Proof. reflexivity. Qed.
+
 Lemma run_lift k x rest : forall l e es,
   run_walk k (map (pfx x) (e :: l) ++ rest) (Some (Dir es)) =
   match run_walk k (e :: l) (assoc x es) with
@@ -140,20 +149,14 @@ Lemma run_lift k x rest : forall l e es,
   | WUnsup => WUnsup
   end.
 Proof.
-  induction l as [|e' l IH]; intros [q n] es.
-  - cbn [map app run_walk]. unfold pfx at 1. cbn [fst snd]. rewrite visit_cons.
-    destruct (visit k (q, n) (assoc x es)); reflexivity.
-  - change (map (pfx x) ((q, n) :: e' :: l) ++ rest)
-      with (pfx x (q, n) :: (map (pfx x) (e' :: l) ++ rest)).
-    change (run_walk k ((q, n) :: e' :: l) (assoc x es))
-      with (match visit k (q, n) (assoc x es) with
-            | ROk m => run_walk k (e' :: l) (Some m)
-            | RErr => WFailed
-            | RUnsup => WUnsup
-            end).
-    cbn [run_walk]. unfold pfx at 1. cbn [fst snd]. rewrite visit_cons.
-    destruct (visit k (q, n) (assoc x es)) as [m| |]; cbn [lift]; try reflexivity.
-    rewrite IH. rewrite assoc_set_same.
+  induction l as [|e' l IH]; intros e es.
+  - cbn [map app run_walk]. rewrite visit_cons.
+    destruct (visit k e (assoc x es)); reflexivity.
+  - change (map (pfx x) (e :: e' :: l) ++ rest)
+      with (pfx x e :: (map (pfx x) (e' :: l) ++ rest)).
+    rewrite (run_walk_cons k (pfx x e)), (run_walk_cons k e (e' :: l)), visit_cons.
+    destruct (visit k e (assoc x es)) as [m| |]; cbn [lift]; try reflexivity.
+    rewrite IH, assoc_set_same.
     destruct (run_walk k (e' :: l) (Some m)) as [[c|]| |]; try reflexivity.
     now rewrite set_set.
 Qed.
@@ -182,7 +185,7 @@ Proof.
     inversion Hall as [|e l Hc Hr]; subst. cbn [snd] in Hc.
     cbn [map fst nodupb] in Hnd. apply andb_true_iff in Hnd as [Hx Hnd].
     apply negb_true_iff in Hx. apply existsb_str_false in Hx.
-    destruct (walk_nonempty c) as [l0 Hw]. rewrite Hw in *.
+    destruct (walk_nonempty c) as [e0 [l0 Hw]]. rewrite Hw in *.
     rewrite run_lift.
     assert (assoc x acc = None) as Hnone.
     { apply assoc_notin. intros Hin. apply (Hdis x Hin). cbn. now left. }
